@@ -700,6 +700,12 @@ func (x *Exec) sliceToSeq(st *State, v SpecVal) SpecVal {
 }
 
 func (x *Exec) resolveTypeText(env *SpecEnv, text string) types.Type {
+	if strings.HasPrefix(text, "[]") {
+		if el := x.resolveTypeText(env, text[2:]); el != nil {
+			return types.NewSlice(el)
+		}
+		return nil
+	}
 	ptr := false
 	if strings.HasPrefix(text, "*") {
 		ptr = true
@@ -785,6 +791,15 @@ func (x *Exec) specQuant(env *SpecEnv, q EQuant) SpecVal {
 		}
 		return SpecVal{T: Forall(vars, body)}
 	}
+	if len(vars) == 1 {
+		var pats [][]Term
+		for _, p := range selectsOn(body.S, vars[0].S) {
+			pats = append(pats, []Term{{S: p}})
+		}
+		if len(pats) > 0 && len(pats) <= 6 {
+			return SpecVal{T: Exists(vars, body, pats...)}
+		}
+	}
 	return SpecVal{T: Exists(vars, body)}
 }
 
@@ -794,7 +809,18 @@ func (x *Exec) specQuant(env *SpecEnv, q EQuant) SpecVal {
 func selectsOn(s, v string) []string {
 	var out []string
 	seen := map[string]bool{}
-	suffix := " " + v + ")"
+	hasTok := func(t string) bool {
+		for i := 0; i+len(v) <= len(t); i++ {
+			if t[i:i+len(v)] == v {
+				before := i == 0 || strings.ContainsRune(" ()", rune(t[i-1]))
+				after := i+len(v) == len(t) || strings.ContainsRune(" ()", rune(t[i+len(v)]))
+				if before && after {
+					return true
+				}
+			}
+		}
+		return false
+	}
 	for i := 0; i+8 < len(s); i++ {
 		if !strings.HasPrefix(s[i:], "(select ") {
 			continue
@@ -807,11 +833,28 @@ func selectsOn(s, v string) []string {
 				depth--
 				if depth == 0 {
 					t := s[i : j+1]
-					if strings.HasSuffix(t, suffix) && !seen[t] {
-						// the bound variable must not occur elsewhere in a way
-						// that makes the trigger ill-formed; any occurrence is fine
-						seen[t] = true
-						out = append(out, t)
+					// split into array part and index part
+					inner := t[len("(select ") : len(t)-1]
+					d, cut := 0, -1
+					for k := 0; k < len(inner); k++ {
+						switch inner[k] {
+						case '(':
+							d++
+						case ')':
+							d--
+						case ' ':
+							if d == 0 && cut < 0 {
+								cut = k
+							}
+						}
+					}
+					if cut > 0 {
+						arr, idx := inner[:cut], inner[cut+1:]
+						// the innermost read whose index mentions v and whose array does not
+						if hasTok(idx) && !hasTok(arr) && !seen[t] && !strings.Contains(idx, "(select ") {
+							seen[t] = true
+							out = append(out, t)
+						}
 					}
 					break
 				}
@@ -855,6 +898,16 @@ func (x *Exec) specCall(env *SpecEnv, c ECall) SpecVal {
 			unsupported("unknown type %s", c.Args[1].exprString())
 		}
 		return SpecVal{T: And(Neq(v.T, IntLit(0)), Eq(x.dynTypeFn()(v.T), x.typeTag(ty)))}
+	case "implementsSig":
+		// same predicate the type switch on an anonymous interface uses
+		v := x.spec(env, c.Args[0])
+		sig := c.Args[1].(EStr).V
+		name := "implements!iface!" + sig
+		if len(c.Args) > 2 {
+			name = "implements!" + c.Args[2].(EStr).V + "!" + sig
+		}
+		impl := x.implementsFn(name, sig)
+		return SpecVal{T: And(Neq(v.T, IntLit(0)), impl(x.dynTypeFn()(v.T)))}
 	case "cast":
 		v := x.spec(env, c.Args[0])
 		ty := x.resolveTypeText(env, c.Args[1].(EStr).V)
@@ -920,6 +973,10 @@ func (x *Exec) specCall(env *SpecEnv, c ECall) SpecVal {
 			return SpecVal{T: Gt(v, x.d.Const("H0!$top", SInt))}
 		}
 		return SpecVal{T: Gt(v, x.top(env.old))}
+	case "known":
+		// a non-nil reference that exists now (top-level object or embedded sub-object)
+		v := x.specTerm(env, c.Args[0])
+		return SpecVal{T: And(Neq(v, IntLit(0)), Le(v, x.top(env.st)))}
 	case "allocated":
 		v := x.specTerm(env, c.Args[0])
 		return SpecVal{T: And(Gt(v, IntLit(0)), Le(v, x.top(env.st)))}
